@@ -58,7 +58,7 @@ def body(case, acc):
     if res.error is not None:
         return Violation("C19:invalid-stream", f"reference decoder rejects the output ({res.error}); see C03", case)
     stmts = case["statements"]
-    sequence_input = case["integration"] == "generic" or case["entry"] == "flat_to_file"
+    sequence_input = case["integration"] == "generic" or case["entry"] in ("flat_to_file", "flat_to_file_default")
     # opportunities
     had_hit = had_repeat = had_seq = False
     stmt_rows = [a for a in res.audit if a["kind"] in ("triple", "quad")]
